@@ -1,0 +1,46 @@
+//go:build verif
+
+// Machine-checked contracts for package flows/runs (comment-only; read by /verif/gocv).
+
+package runs
+
+// representation facts of a run created by NewRun/ReadRun in a session built by the engine
+//@ pred RunRep(r *run) bool := r != nil && !isnil(r.session) && !isnil(r.flow) && SessRep(r.session.(*engine.session)) && r.flow.(*definition.flow) != nil && !isnil(r.flow.(*definition.flow).localization)
+
+// ---- C18: language preference list and fallback chain
+
+// preferred language of the contact: its language if set and allowed by the environment, else the environment default
+//@ pred contactLang(s *engine.session) i18n.Language := (s.contact != nil && s.contact.language != "" && langIn(s.env.AllowedLanguages(), s.contact.language)) ? s.contact.language : s.env.DefaultLanguage()
+
+//@ func (r *run) getLanguages
+//@   pure
+//@   reads run::session, run::flow, engine.session::contact, engine.session::env, engine.session::assets, engine.sessionAssets::locations, flows.LocationAssets::hierarchies, flows.Contact::language, definition.flow::language
+//@   nopanic
+//@   requires RunRep(r)
+//@   let s := r.session.(*engine.session)
+//@   let cl := contactLang(s)
+//@   let dl := s.env.DefaultLanguage()
+//@   let bl := r.flow.(*definition.flow).language
+//@   ensures [len] len(result) == (cl != "" ? 1 : 0) + ((dl != "" && dl != cl) ? 1 : 0) + 1
+//@   ensures [first] cl != "" ==> result[0] == cl
+//@   ensures [second] (dl != "" && dl != cl) ==> result[(cl != "" ? 1 : 0)] == dl
+//@   ensures [last] result[len(result) - 1] == bl
+
+// translation of (uuid, key) in language lang, nil if there is none (or only the [""] placeholder)
+//@ pred trOf(r *run, lang i18n.Language, uuid uuids.UUID, key string) []string := hasTr(r.flow.(*definition.flow).localization.(definition.localization), lang, uuid, key) ? r.flow.(*definition.flow).localization.(definition.localization)[lang][uuid][key] : nil
+//@ pred qualifies(r *run, lang i18n.Language, uuid uuids.UUID, key string) bool := lang == r.flow.(*definition.flow).language || hasTr(r.flow.(*definition.flow).localization.(definition.localization), lang, uuid, key)
+
+// (res, lang) is what the fallback chain over L picks for (uuid, key) with base text native
+//@ pred pickedBy(r *run, L []i18n.Language, uuid uuids.UUID, key string, native []string, res []string, lang i18n.Language) bool := ((exists k int :: 0 <= k && k < len(L) && qualifies(r, L[k], uuid, key) && (forall j int :: 0 <= j && j < k ==> !qualifies(r, L[j], uuid, key)) && lang == L[k] && (L[k] == r.flow.(*definition.flow).language ? res == native : res == trOf(r, L[k], uuid, key))) || ((forall k int :: 0 <= k && k < len(L) ==> !qualifies(r, L[k], uuid, key)) && res == native && lang == r.flow.(*definition.flow).language))
+
+// history token: (res, lang) was returned by getText for these arguments (and satisfied pickedBy in the state
+// of that call); used by callers whose later calls may change unrelated heap
+//@ pure gotText(r *run, languages []i18n.Language, uuid uuids.UUID, key string, native []string, res []string, lang i18n.Language) bool
+
+//@ func (r *run) getText
+//@   nopanic
+//@   requires RunRep(r)
+//@   ensures [picked] pickedBy(r, (languages == nil ? r.getLanguages() : languages), uuid, key, native, result0, result1)
+//@   records gotText(r, languages, uuid, key, native, result0, result1)
+//@ loop 1
+//@   invariant forall k int :: 0 <= k && k <= $i ==> !qualifies(r, languages[k], uuid, key)
